@@ -109,7 +109,9 @@ PredictVerdict(e) ==
                  (IF W("C11") /\ dom THEN C11Single(e) ELSE {})
                  \cup (IF W("C12") /\ dom THEN C12Rank(e, RankX(m, e.teams)) ELSE {})
               ELSE {})
+        \cup (IF W("S") /\ comp /\ dom /\ Ok(e) /\ "stages" \in DOMAIN e THEN PredictStageFails(m, e.teams, e.op, e.stages) ELSE {})
       cls == {"op=" \o e.op, "kind=" \o m.kind}
+             \cup (IF W("S") /\ "stages" \in DOMAIN e THEN StageClasses(e.stages) ELSE {})
              \cup (IF wf THEN {"n=" \o ToString(N(e))} ELSE {"malformed"})
              \cup (IF dom THEN {"in_domain"} ELSE {}) \cup (IF Ok(e) THEN {"ok"} ELSE {"raise:" \o e.out.exc})
   IN  [fails |-> fails, cls |-> cls, X |-> <<>>]
